@@ -61,7 +61,13 @@ func (h *History) Expected(k int) (base State, inCommit []*Txn, losers []*Txn) {
 			losers = append(losers, t)
 		}
 	}
-	sort.Slice(committed, func(i, j int) bool { return committed[i].CommitRet < committed[j].CommitRet })
+	// transactions of an earlier, unrecorded session all carry position 0: they committed one after the other, in creation order
+	sort.SliceStable(committed, func(i, j int) bool {
+		if committed[i].CommitRet != committed[j].CommitRet {
+			return committed[i].CommitRet < committed[j].CommitRet
+		}
+		return committed[i].N < committed[j].N
+	})
 	for _, t := range committed {
 		applyOps(base, t.Ops)
 	}
